@@ -3,10 +3,14 @@ CONSTANTS
   Stages = 11
   AccEvals = 1
   DenseEvals = 3
+  CountRule = "hairer"
+  HasHinit = TRUE
+  HasSmall = TRUE
   StiffEvery = 1000
   StiffLimit = 15
   NonStiffReset = 6
   Metric = FALSE
+  LowBudget = 100000
 CONSTRAINT Track
 INVARIANT TraceInv
 POSTCONDITION Accepted
